@@ -132,6 +132,19 @@ fn corruptions() -> Vec<(String, &'static str)> {
     add("2020-2030/00".into(), "zero step");
     add("week 01-10/0".into(), "zero step");
     add("week 01-10/000".into(), "zero step");
+    // numbers the fields of the denoted expression cannot hold: they can only be rejected
+    for st in ["256", "257", "512", "1024", "65536", "4294967296", "18446744073709551616"] {
+        add(format!("week 01-10/{st}"), "step beyond the field");
+        add(format!("week 02-53/{st} Mo"), "step beyond the field");
+    }
+    for st in ["65536", "65537", "131072", "4294967296", "18446744073709551616"] {
+        add(format!("2020-2030/{st}"), "step beyond the field");
+    }
+    for off in ["18446744073709551616", "9223372036854775808", "99999999999999999999999"] {
+        add(format!("Mo[1] +{off} days"), "offset beyond the field");
+        add(format!("PH -{off} days"), "offset beyond the field");
+        add(format!("Jan 05 +{off} days"), "offset beyond the field");
+    }
     v.push(("".into(), "empty input"));
     for s in ["Mo \"abc", "\"abc", "Mo 10:00-12:00 \"a\"b\"", "\"", "Mo \"", "\"a\":\"b", "24/7 closed \"x"] {
         v.push((s.to_string(), "unbalanced quote"));
